@@ -533,6 +533,13 @@ func subReset() mon.Sub {
 			for k := 0; k < 6; k++ {
 				c.Count(1)
 				of := offerOf(c.Rng.Intn(nOffer))
+				if c.Rng.Intn(3) == 0 {
+					// the application re-configures the (exported) Parameters of the negotiator it re-uses:
+					// from now on it is a negotiator of the new configuration
+					cfg = cfgOf(c.Rng.Intn(nCfg))
+					e.Parameters = cfg
+					hist = append(hist, fmt.Sprintf("Parameters = %+v", cfg))
+				}
 				fresh := &wsflate.Extension{Parameters: cfg}
 				a1, e1 := e.Negotiate(optionOf(of, k))
 				a2, e2 := fresh.Negotiate(optionOf(of, k))
